@@ -21,7 +21,9 @@ def _run(ctx):
     need = {"accepted": stats.get("accepted", 0), "rejected": stats.get("rejected", 0), "locals": stats.get("locals", 0),
             "cluster_accepted": cstats.get("accepted", 0), "cluster_rejected": cstats.get("rejected", 0),
             "cluster_recovered": cstats.get("recovered", 0), "cluster_quiet": cstats.get("quiet", 0),
-            "cluster_crashes": cstats.get("crashes", 0), "cluster_forwards": cstats.get("forwards", 0)}
+            "cluster_crashes": cstats.get("crashes", 0), "cluster_forwards": cstats.get("forwards", 0),
+            # feedback deliveries whose mark reached the threshold while a newer operation was stored
+            "cluster_stalefb_hits": cstats.get("stalefb_hits", 0)}
     if any(v == 0 for v in need.values()):
         raise vlib.Inconclusive("vacuous run: %s" % need)
     cov = {
@@ -49,8 +51,8 @@ def _run(ctx):
     return ctx.finish("model_checking", cov, [
         "membership is a static real cluster store (cluster.Cluster{Store}), transports are freighter/mock networks; the "
         "periodic emitter (1000 h interval) is replaced by the harness scheduler calling the same handlers",
-        "masked schedules do not step into the named windows (VolatileStore, StaleFeedback, RecoveryUnchecked, MultiLease, "
-        "PrematureRemoval); each window except PrematureRemoval (inherent to SIR removal with random peers) is replayed as a "
+        "masked schedules do not step into the named windows (VolatileStore, RecoveryUnchecked, MultiLease, "
+        "PrematureRemoval; StaleFeedback was repaired in store.go and is stepped into freely); each window except PrematureRemoval (inherent to SIR removal with random peers) is replayed as a "
         "directed script and reported under a stable signature",
         "start-up recovery of several peers is modelled per peer (high-water mark loaded at start or after another peer's commit)",
         "TLC/SANY, Go toolchain, memkv (pebble in-memory) trusted",
